@@ -23,11 +23,21 @@ META = {
   design_ref="DESIGN.md section 3, C09",
   note="The end-to-end use of the cached branch (RunModule) is exercised by the cache-subset checks, not here.",
   technique="rapid random generation, differential original-vs-replay"),
+ "C10": dict(
+  text="Round-trip random testing through the real Save/write/Load path for full and partial stores (content built through real operations: arbitrary valid UTF-8 keys, binary values incl. empty and large, delete prefixes, up to thousands of entries) and of the file naming: generated sets of full/partial snapshots with ranges up to 10 digits are saved and must be listed by ListSnapshotFiles(below) with the right range and kind for every boundary value of below, with nothing unsaved returned.",
+  design_ref="DESIGN.md section 3, C10",
+  note="Keys are valid UTF-8 (a key that is not cannot pass the operation log, whose protobuf string fields reject it); raw binary keys are exercised at the marshaller level in C18. Local uncompressed dstore.",
+  technique="rapid random generation, round-trip + completeness/soundness of listing"),
  "C11": dict(
   text="Stateful random testing: histories of blocks, undos, redos, finals, merges of saved+reloaded partials and save/load cycles with the total size limit lowered through a verif hook; after every step SizeBytes()==sum(len key+len value); Flush rejects as too big iff the content exceeds the limit right after some delta.",
   design_ref="DESIGN.md section 3, C11",
   note="The limit is only enforced by ApplyDelta (set/create paths), so the rejection oracle is stated for Flush; Merge itself is only required to keep the accounting exact.",
   technique="rapid stateful (history machine) with size invariant and rejection oracle"),
+ "C18": dict(
+  text="Differential round-trip random testing of the hand-written codecs against google.golang.org/protobuf: Map.MarshalFast -> proto.Unmarshal(Array), proto.Marshal(Array) -> Map.UnmarshalFast, fast round trip; every store marshaller reads back what it wrote; VTproto/ProtoingFast bytes decode with proto.Unmarshal and proto.Marshal bytes decode with the VTproto decoder; reported size == sum(len k+len v).",
+  design_ref="DESIGN.md section 3, C18",
+  note="Cross-decoding with the standard codec is only required for valid UTF-8 strings (the standard codec rejects others by design); raw binary keys are checked on the self round trips of VTproto and Binary.",
+  technique="rapid random generation, differential against the standard protobuf codec + round trips"),
  "C13": dict(
   text="Bounded-exhaustive enumeration of the quantifier's whole grid (segment size 1..16 x initial 0..64 x end..96, every index and block; Split start 0..40 x len 1..60 x chunk 1..16; all lists of <=4 ranges over 0..12) plus rapid-generated large values, judged by a validity predicate (non-empty, contiguous, disjoint, aligned, union exact, index lookups, out-of-range nil; Split/Merged preserve the covered block set).",
   design_ref="DESIGN.md section 3, C13",
